@@ -73,6 +73,13 @@ def body_for(rng, types, it_expr_x, it_expr_y, it, kind, x="x"):
         body.append(["sig", "g", ["p", ["s", cond, ["b", "*", ["v", x], ["n", rng.randint(2, 5)]]], t]])
         body.append(["place", "lamp", "small-lamp", it_expr_x, it_expr_y, None])
         body.append(["set", "lamp", "enable", ["c", ">", ["v", "g"], ["n", rng.randint(0, 20)]]])
+    elif kind == "iterproj":
+        # the bare iterator projected onto a signal type (a constant signal that differs per iteration)
+        t = types.fresh()
+        e_ = ["p", ["v", it], t] if rng.random() < 0.7 else ["p", ["p", ["v", it], types.fresh()], t]
+        body.append(["sig", "xq", e_])
+        body.append(["place", "lamp", "small-lamp", it_expr_x, it_expr_y, None])
+        body.append(["set", "lamp", "enable", ["c", rng.choice([">=", "<", "=="]), ["v", "xq"], ["n", rng.randint(0, 4)]]])
     elif kind == "call":
         body.append(["place", "lamp", "small-lamp", it_expr_x, it_expr_y, None])
         body.append(["set", "lamp", "enable", ["c", ">", ["call", "f", [["v", x], ["v", it]]], ["n", rng.randint(0, 20)]]])
@@ -121,7 +128,7 @@ def make_loop_prog(rng, rng_spec, kind, nest=1, bounds_via_vars=False):
     return prog
 
 
-KINDS = ["cmp", "local", "literal", "intvar", "memory", "call", "itercond", "itercond"]
+KINDS = ["cmp", "local", "literal", "intvar", "memory", "call", "itercond", "itercond", "iterproj"]
 
 
 def gen_cases(tier, seed):
